@@ -11,6 +11,11 @@ DIRECTED = [
      [{'all': False, 'check': 'CheckECKeySmallDifference', 'batch': ['s3']},
       {'all': False, 'check': 'CheckWeakECPrivateKey', 'batch': ['s4', 's1']},
       {'all': False, 'check': 'CheckECKeySmallDifference', 'batch': ['s1', 's2', 's4']}]),
+    ('ec', 'warm-table', {'s1': 'healthy', 's2': 'healthy', 's3': 'healthy', 's4': 'weakprivatetop'},
+     [{'all': False, 'check': 'CheckWeakECPrivateKey', 'batch': ['s1', 's2', 's3', 's4']},
+      {'all': False, 'check': 'CheckWeakECPrivateKey', 'batch': ['s4']}]),
+    ('rsa', 'mixed-sizes', {'s1': 'small', 's2': 'pattern4096', 's3': 'healthy'},
+     [{'all': False, 'check': 'CheckBitPatterns', 'batch': ['s1', 's2', 's3']}, {'all': True, 'check': 'ALL', 'batch': ['s3', 's1', 's2']}]),
     ('rsa', 'sizes', {'s1': 'small', 's2': 'healthy3072', 's3': 'fermat', 's4': 'sharedA'},
      [{'all': True, 'check': 'ALL', 'batch': ['s2', 's1']}, {'all': True, 'check': 'ALL', 'batch': ['s3', 's4', 's1']},
       {'all': False, 'check': 'CheckUnseededRand', 'batch': ['s1', 's2', 's3']}]),
